@@ -961,6 +961,32 @@ func runC13(c *Ctx) {
 	c.rawBytes("C13")
 	c.nativeAfterDerivations()
 	c.longLists("C13")
+	// every integer width and float32 at its boundaries, as elements of native slices and maps: what comes back
+	// from NativeSlice / NativeDict / Slice / Dict is the int / float64 the value denotes
+	m.Case("native-widths")
+	for _, w := range []string{"i8", "i16", "i32", "i64", "u", "u8", "u16", "u32", "u64"} {
+		ws := widthValues(w)
+		ws = append(ws, &GV{K: 'g', F32: 0.1}, &GV{K: 'g', F32: math.MaxFloat32}, &GV{K: 'g', F32: math.SmallestNonzeroFloat32})
+		gl := &GV{K: '(', Fl: 'a', Xs: ws}
+		l := m.NewListFrom(gl)
+		if l != "" {
+			m.NativeSlice(l)
+			m.Slice(l)
+			m.SliceK(l, 'i')
+			m.SliceK(l, 'f')
+		}
+		gm := &GV{K: '<', Fl: 'a', Xs: ws}
+		for i := range ws {
+			gm.Keys = append(gm.Keys, "k"+strconv.Itoa(i))
+		}
+		o := m.NewObjectFrom(gm)
+		if o != "" {
+			m.NativeDict(o)
+			m.Dict(o)
+		}
+		holder := m.NewList(gl, gm)
+		m.NativeSlice(holder)
+	}
 	opts := &TreeOpts{MaxDepth: 5, MaxWidth: 5}
 	for i := 0; i < c.N(500, 8000); i++ {
 		m.Case("native")
@@ -1420,7 +1446,10 @@ func runC19(c *Ctx) {
 			for _, t := range []string{d, raw} {
 				m.Add(t, gvInt(r.SmallInt()))
 				m.Insert(t, 0, gvInt(5))
+				m.Insert(t, m.L(t).Count(), gvInt(5)) // the append boundary
+				m.Insert(t, m.L(t).Count()-1, gvInt(5))
 				m.Replace(t, 0, gvInt(6))
+				m.Replace(t, m.L(t).Count()-1, gvInt(6))
 				m.Delete(t, 0)
 				m.Pop(t)
 				m.Sort(t)
@@ -1435,6 +1464,7 @@ func runC19(c *Ctx) {
 				m.SetTF(t, "#5#1.k", gvInt(9))
 				m.UnsetTF(t, "#0")
 				m.Clear(t)
+				m.Insert(t, 0, gvInt(1)) // Insert into the empty list is the append boundary too
 				m.Add(t, gvInt(1), gvInt(2))
 			}
 			rawO := m.NewObject(gvStr("a"), gvInt(1))
